@@ -132,6 +132,15 @@ def run(db: ProgramDB, chk) -> None:
             restored_from[a] = (v.value.id, v.attr)
         else:
             restored_other[a] = v
+    # setattr(inst, "name", getattr(src, "name")) with literal names (e.g. an unrolled loop over a tuple of member names)
+    for n_ in ast.walk(restore):
+        if isinstance(n_, ast.Expr) and isinstance(n_.value, ast.Call) and H.name_id(n_.value.func) == "setattr" and len(n_.value.args) == 3 and H.name_id(n_.value.args[0]) == inst \
+                and isinstance(n_.value.args[1], ast.Constant) and isinstance(n_.value.args[1].value, str):
+            v_ = n_.value.args[2]
+            if isinstance(v_, ast.Call) and H.name_id(v_.func) == "getattr" and len(v_.args) == 2 and isinstance(v_.args[0], ast.Name) and isinstance(v_.args[1], ast.Constant):
+                restored_from[n_.value.args[1].value] = (v_.args[0].id, v_.args[1].value)
+            else:
+                restored_other[n_.value.args[1].value] = v_
     # the reflective form of the same copy: for f in dataclasses.fields(_CPGraphData): setattr(inst, f.name, getattr(src, f.name))
     for lp_ in [n for n in ast.walk(restore) if isinstance(n, ast.For) and isinstance(n.target, ast.Name)]:
         it_ = lp_.iter
